@@ -12,7 +12,7 @@ Local Open Scope Z_scope.
     every other nonce and every store key is unchanged — provided no non-journaled write was
     executed (or they are journaled: [d_raw_add] off) and the transaction is not on the
     non-reverting IBTP path (or that path reverts: [d_ibtp_no_revert] off). *)
-Theorem C07_failed_frame_generic : forall c, d_stale_changer c = false ->
+Theorem C07_failed_frame_generic : forall c, d_stale_changer c = false -> d_prev_from_memory c = false -> d_revert_drops_tombstone c = false ->
   forall e idx s t s' rc cnt,
   d_fee_after_body (x_fees c) = false ->
   tx_invalid t = true \/ is_ibtp t = false \/ d_ibtp_no_revert c = false ->
@@ -23,7 +23,7 @@ Proof. exact failed_frame_generic. Qed.
 Print Assumptions C07_failed_frame_generic.
 
 (** the only other differences are exactly the RawAdd writes executed before the failure *)
-Theorem C07_rawadd_characterised : forall c, d_stale_changer c = false ->
+Theorem C07_rawadd_characterised : forall c, d_stale_changer c = false -> d_prev_from_memory c = false -> d_revert_drops_tombstone c = false ->
   forall e idx s t s' rc cnt,
   d_fee_after_body (x_fees c) = false ->
   tx_invalid t = true \/ is_ibtp t = false \/ d_ibtp_no_revert c = false ->
@@ -37,7 +37,8 @@ Print Assumptions C07_rawadd_characterised.
 
 (** ... at every position of a block *)
 Theorem C07_block_position_frame : forall c e s pre p t,
-  d_stale_changer c = false -> d_fee_after_body (x_fees c) = false ->
+  d_stale_changer c = false -> d_prev_from_memory c = false -> d_revert_drops_tombstone c = false ->
+  d_fee_after_body (x_fees c) = false ->
   tx_invalid t = true \/ is_ibtp t = false \/ d_ibtp_no_revert c = false ->
   let '(si, _, _) := apply_txs c e 0%N (new_block s pre) p in
   let '(si', rc, _) := apply_tx c e (N.of_nat (length p)) si t in
@@ -47,7 +48,7 @@ Proof. exact block_position_frame. Qed.
 Print Assumptions C07_block_position_frame.
 
 (** a transaction rejected before execution (bad signature, rejected proof) never runs its body *)
-Theorem C07_invalid_tx_frame : forall c, d_stale_changer c = false ->
+Theorem C07_invalid_tx_frame : forall c, d_stale_changer c = false -> d_prev_from_memory c = false -> d_revert_drops_tombstone c = false ->
   forall e idx s t s' rc cnt,
   d_fee_after_body (x_fees c) = false -> tx_invalid t = true ->
   apply_tx c e idx s t = (s', rc, cnt) -> r_ok rc = false /\ frame_ok e s s' t.
@@ -119,6 +120,18 @@ Theorem C07_stale_changer_refuted :
          mk_tx 2%N 0%N (KBvm (fun _ => JWrite kB 5%N Panic))] in
   map r_ok rcs = [true; false] /\ store s' kB = Some 5%N.
 Proof. exact stale_changer_refuted. Qed.
+
+Theorem C07_prev_from_memory_refuted :
+  let '(s', rc, _) := apply_tx cfg_prevmem env_fee 0%N s_cold (mk_tx 1%N 0%N (KBvm (fun _ => JWrite kA 5%N Done))) in
+  r_ok rc = false /\ store s_cold kA = Some 9%N /\ store s' kA = None.
+Proof. exact prev_from_memory_refuted. Qed.
+
+Theorem C07_revert_drops_tombstone_refuted :
+  let '(s', rcs, _) := exec_block cfg_tomb env1 s_committed []
+        [mk_tx 1%N 0%N (KBvm (fun _ => JDelete kA Done));
+         mk_tx 2%N 0%N (KBvm (fun _ => JWrite kA 5%N Panic))] in
+  map r_ok rcs = [true; false] /\ store s' kA = Some 9%N.
+Proof. exact revert_drops_tombstone_refuted. Qed.
 
 Theorem C07_fee_after_body_refuted :
   let t := mk_tx 1%N 0%N (KTransfer 2%N (ADec 90000)) in
